@@ -381,7 +381,7 @@ pub const ASSUME_L2: &[&str] = &[
 
 pub fn check_conc(ctx: &mut Ctx, cfg: ConcCfg, strat: fn() -> BoxedStrategy<SymProg>, rule: &'static str, progs_q: u32, progs_t: u32) -> i32 {
     let acc = Accum::new();
-    ctx.hang_secs = Some(40);
+    ctx.hang_secs = Some(900);
     for path in regress_files(cfg.prop) {
         if let Ok(sp) = load(&path) {
             let rep = run_prog(&cfg, &sp, 1);
